@@ -1,8 +1,10 @@
 (* Property C18 — failures of the underlying reader or writer are always surfaced
-   (theorems only; proofs in Proofs/FaultProofs.v and Proofs/ReaderProofs.v). *)
+   (theorems only; proofs in Proofs/FaultProofs.v, ReaderProofs.v, FaultDemux.v, FaultMux.v). *)
 From Coq Require Import ZArith List Bool.
-Require Import Base.Bits Base.Iter Gen.Consts Gen.Types Model.Packet Model.Reader Model.Demux Model.Faults
-  Proofs.FaultProofs Proofs.ReaderProofs.
+Require Import Base.Bits Base.Iter Gen.Consts Gen.Types Model.Packet Model.Reader Model.Demux Model.DemuxFull Model.Faults
+  Model.Muxer Model.MuxFaults
+  Proofs.FaultProofs Proofs.ReaderProofs Proofs.DemuxProofs Proofs.SafeProofs Proofs.SafeDemux Proofs.FaultDemux
+  Proofs.MuxerExamples Proofs.FaultMux.
 Import ListNotations.
 Open Scope Z_scope.
 
@@ -37,3 +39,140 @@ Print Assumptions C18_writer_prefix.
 
 Example C18_fault_reader : faulty (new_reader [71; 0; 0] (Some 2) Plain).
 Proof. exists 2. split; [reflexivity|cbn; discriminate]. Qed.
+
+(* ======================= the reader, at the level of Demuxer calls (Proofs/FaultDemux.v) =======================
+   Two Demuxers over the same bytes, the same reader kind (plain / seekable / bufio) and the same size option: one
+   over a reader that does not fail, one over a reader that fails with an error other than EOF once f bytes have been
+   handed out, 0 <= f <= length of the stream (f inside the detection window included).  `calls` is the list of the
+   results of a sequence of NextPacket / NextData calls (Proofs/DemuxProofs.v). *)
+
+(* "everything delivered before is a prefix of the fault-free output": the results agree up to the first call of the
+   failing run that returns the injected error.  No hypothesis on the bytes, the size option, the skipper, the unit
+   parsers or the PacketsParser: by a lock-step simulation of the two runs *)
+Theorem C18_demux_prefix : forall P prs skip data k opt f cs, 0 <= f <= Z.of_nat (length data) ->
+  let outs_f := calls P prs skip cs (init_dstate (new_reader data (Some f) k) opt) in
+  let outs := calls P prs skip cs (init_dstate (new_reader data None k) opt) in
+  exists n, (n <= length cs)%nat /\ firstn n outs_f = firstn n outs /\
+    ((n < length cs)%nat -> nth_error outs_f n = Some (Err E_injected)).
+Proof. exact demux_prefix. Qed.
+Print Assumptions C18_demux_prefix.
+
+(* "never ErrNoMorePackets, never a panic": no call of the failing run, whatever the call sequence (bytes in 0..255,
+   size option 0 = auto-detection or >= 188, a PacketsParser that does not itself panic) *)
+Theorem C18_demux_never_nomore : forall prs skip data k opt f cs, bytes_ok data ->
+  (opt = 0 \/ C_MpegTsPacketSize <= opt) -> parser_no_panic prs -> 0 <= f <= Z.of_nat (length data) ->
+  Forall (fun x => x <> Err E_nomore /\ x <> Panic)
+         (calls full_parsers prs skip cs (init_dstate (new_reader data (Some f) k) opt)).
+Proof. exact demux_never_nomore. Qed.
+Print Assumptions C18_demux_never_nomore.
+
+(* call by call: every result of the failing run is the fault-free run's result of the same call or the injected
+   error (after the failure NextData still hands out the data an earlier call left in the data buffer: they are the
+   fault-free run's) *)
+Theorem C18_demux_pointwise : forall prs skip data k opt f cs, bytes_ok data ->
+  (opt = 0 \/ C_MpegTsPacketSize <= opt) -> parser_no_panic prs -> 0 <= f <= Z.of_nat (length data) ->
+  Forall2 (fun xf x => xf = x \/ xf = Err E_injected)
+    (calls full_parsers prs skip cs (init_dstate (new_reader data (Some f) k) opt))
+    (calls full_parsers prs skip cs (init_dstate (new_reader data None k) opt)).
+Proof. exact demux_pointwise. Qed.
+Print Assumptions C18_demux_pointwise.
+
+(* the failure is surfaced: a call sequence long enough to take the fault-free Demuxer to ErrNoMorePackets makes the
+   failing one return the injected error *)
+Theorem C18_demux_fault_reported : forall prs skip data k opt f cs, bytes_ok data ->
+  (opt = 0 \/ C_MpegTsPacketSize <= opt) -> parser_no_panic prs -> 0 <= f <= Z.of_nat (length data) ->
+  In (Err E_nomore) (calls full_parsers prs skip cs (init_dstate (new_reader data None k) opt)) ->
+  In (Err E_injected) (calls full_parsers prs skip cs (init_dstate (new_reader data (Some f) k) opt)).
+Proof. exact demux_fault_reported. Qed.
+Print Assumptions C18_demux_fault_reported.
+
+(* after the failing call (the reader keeps failing): every later NextPacket returns the injected error again; every
+   later NextData returns it again or a datum from the data buffer (after_fault); after a failing NextData the buffer is
+   empty and every later call of either kind returns the error *)
+Theorem C18_demux_fault_persistent : forall prs skip data k opt f cs c cs', bytes_ok data ->
+  (opt = 0 \/ C_MpegTsPacketSize <= opt) -> parser_no_panic prs -> 0 <= f <= Z.of_nat (length data) ->
+  let outs := calls full_parsers prs skip (cs ++ c :: cs') (init_dstate (new_reader data (Some f) k) opt) in
+  nth_error outs (length cs) = Some (Err E_injected) ->
+  let later := skipn (S (length cs)) outs in
+  Forall2 after_fault cs' later /\ (c = CallData -> Forall (fun x => x = Err E_injected) later).
+Proof. exact demux_fault_persistent. Qed.
+Print Assumptions C18_demux_fault_persistent.
+
+(* the hypotheses are satisfiable and the fault strikes mid-way: six packets, units of two packets that each yield two
+   data, the reader fails at offset 600 (inside the fourth packet).  200+pid = datum, 100 = packet, 7 = injected error,
+   1 = ErrNoMorePackets.  The second NextData of the failing run hands out the buffered datum after the failure *)
+Example C18_demux_example :
+  bytes_ok ex18_stream /\ parser_no_panic ex18_prs /\ 0 <= 600 <= Z.of_nat (length ex18_stream) /\
+  let cs := [CallData; CallPacket; CallData; CallData; CallPacket; CallData] in
+  ex18_run Plain 188 (Some 600) cs = [201; 7; 202; 7; 7; 7] /\
+  ex18_run Plain 188 None cs = [201; 100; 202; 201; 1; 202].
+Proof.
+  split; [exact ex18_stream_ok|]. split; [exact ex18_prs_no_panic|].
+  split; [vm_compute; split; discriminate|]. vm_compute. split; reflexivity.
+Qed.
+
+(* inside auto-detection (bufio: the failed Peek consumes nothing; plain: the detection window is consumed), and at
+   f = length of the stream: the last unit, which the fault-free run delivers at end of stream, is not delivered *)
+Example C18_demux_example_detect :
+  ex18_run Bufio 0 (Some 100) [CallPacket; CallData; CallPacket] = [7; 7; 7] /\
+  ex18_run Plain 0 (Some 300) [CallPacket; CallData; CallPacket] = [7; 7; 7] /\
+  ex18_run Seekable 0 (Some 193) [CallPacket; CallPacket; CallData] = [100; 7; 7] /\
+  ex18_run Seekable 0 (Some 1128) [CallData; CallData; CallData; CallData; CallData; CallData] = [201; 202; 201; 202; 7; 7] /\
+  ex18_run Seekable 0 None [CallData; CallData; CallData; CallData; CallData; CallData; CallData] = [201; 202; 201; 202; 201; 202; 1].
+Proof. vm_compute. repeat split. Qed.
+
+(* ======================= the writer, at the level of Muxer calls (Proofs/FaultMux.v) =======================
+   mux_run_faulty s ops k (Model/MuxFaults.v) = what is observed of the history ops from state s when the io.Writer
+   fails on its k-th Write (0-based, counted over the whole history): one entry (error class, returned count, bytes
+   accepted) per call up to and including the call during which the failure happens.  The same function is run
+   against the implementation by the correspondence check.  A writer that fails only once is covered as far as the
+   property goes (the call during which it failed); the Muxer's state after a failed Write is not modelled. *)
+
+(* every entry before the last is the fault-free run's entry of that call (error class, count, bytes) *)
+Theorem C18_mux_fault_before : forall ops s k i, (S i < length (mux_run_faulty s ops k))%nat ->
+  nth_error (mux_run_faulty s ops k) i = nth_error (mux_run_entries s ops) i.
+Proof. exact mux_fault_before. Qed.
+Print Assumptions C18_mux_fault_before.
+
+(* when the history has a k-th Write, the observation ends with the call i during which it happens; that call returns
+   the injected error (not nil), reports a count 0 <= n <= number of bytes the writer accepted during the call, and
+   those bytes are a prefix of what the same call writes in the fault-free run — for every state (period, streams,
+   counters), every history (WriteTables / WriteData / WritePacket / Add / Remove / SetPCRPID) and every k *)
+Theorem C18_mux_fault_call : forall ops s k, 0 <= k < mux_writes s ops ->
+  exists i n acc,
+    length (mux_run_faulty s ops k) = S i /\ (i < length ops)%nat /\
+    mux_writes s (firstn i ops) <= k < mux_writes s (firstn (S i) ops) /\
+    nth_error (mux_run_faulty s ops k) i = Some (E_injected, n, acc) /\
+    E_injected <> mres_code (Ok tt) /\
+    0 <= n <= Z.of_nat (length acc) /\
+    exists code n0 bytes rest, nth_error (mux_run_entries s ops) i = Some (code, n0, bytes) /\ bytes = acc ++ rest.
+Proof. exact mux_fault_call. Qed.
+Print Assumptions C18_mux_fault_call.
+
+(* fewer than k+1 Writes in the whole history: the observation is the fault-free one *)
+Theorem C18_mux_no_fault : forall ops s k, mux_writes s ops <= k -> mux_run_faulty s ops k = mux_run_entries s ops.
+Proof. exact mux_no_fault. Qed.
+Print Assumptions C18_mux_no_fault.
+
+(* the fault-free observation is the run of Model/Muxer.v (the subject of C04 / C05 / C17), and the groups a call
+   accounts for — Muxer.WritePacket counts sync byte, header, adaptation field, payload and each stuffing byte
+   separately — hold exactly the Write calls of that model, in order *)
+Theorem C18_mux_entries_run : forall ops s, mux_run_entries s ops = map entry_of_call (snd (mux_run s ops)).
+Proof. exact mux_run_entries_run. Qed.
+Print Assumptions C18_mux_entries_run.
+
+Theorem C18_mux_regroup : forall s o, let out := snd (mux_step s o) in
+  concat (groups_of_call o out) = concat (mo_groups out).
+Proof. exact groups_of_call_regroup. Qed.
+Print Assumptions C18_mux_regroup.
+
+(* the fault strikes mid-way: the example history of C04/C05/C17 (two streams, period 2) makes 805 Write calls; when
+   the 31st fails, the fourth call (a WriteData that emits PAT, PMT and three packets, 940 bytes) returns the injected
+   error with count 752 after the writer accepted 770 bytes *)
+Example C18_mux_example :
+  mux_writes (new_muxer 2) ex_ops = 805 /\
+  map (fun e : fentry => let '(c, n, bs) := e in (c, n, Z.of_nat (length bs))) (mux_run_faulty (new_muxer 2) ex_ops 30) =
+    [(-1, 0, 0); (-1, 0, 0); (-1, 0, 0); (E_injected, 752, 770)] /\
+  nth_error (map (fun e : fentry => let '(c, n, bs) := e in (c, n, Z.of_nat (length bs))) (mux_run_entries (new_muxer 2) ex_ops)) 3 =
+    Some (-1, 940, 940).
+Proof. vm_compute. repeat split. Qed.
